@@ -387,6 +387,64 @@ Definition wcfg := @config wal regs wop out.
 Definition wrun : list nat -> wcfg -> wcfg := run wcode wexec.
 Definition winit (progs : list (list wop)) : wcfg := init wal0 regs0 progs.
 
+(** * Write-ahead log with rotation (WalConfig::max_log_size below the size of one record, so that
+      every append asks for a rotation: `log` appends under the mutex, releases it, and then
+      `rotate` takes the next sequence number with a fetch_add, opens the new file, and only
+      then takes the mutex again to install it) *)
+Record walr := mkWalR {
+  wr_files : list (Z * list Z);   (* sequence number -> records of that file, most recent first *)
+  wr_active : Z;                  (* sequence number of the file behind active_log *)
+  wr_seq : Z                      (* current_sequence *)
+}.
+Definition walr0 : walr := mkWalR [(0, [])] 0 0.
+Definition file_of (w : walr) (s : Z) : list Z := match aget s (wr_files w) with Some l => l | None => [] end.
+Inductive rk := REnsure | RAppend (r : Z) | RSeq | RInstall.
+Definition rexec (k : rk) (w : walr) (l : regs) : walr * regs * ctl out :=
+  match k with
+  | REnsure => (w, l, Next)
+  | RAppend r => (mkWalR (aset (wr_active w) (r :: file_of w (wr_active w)) (wr_files w)) (wr_active w) (wr_seq w), l, Next)
+  | RSeq => (mkWalR (wr_files w) (wr_active w) (wr_seq w + 1), set_r0 l (wr_seq w + 1), Next)
+  | RInstall => (mkWalR (aset (r0 l) (file_of w (r0 l)) (wr_files w)) (r0 l) (wr_seq w), l, Ret (OB true))
+  end.
+Inductive rop := RLog (r : Z).
+Definition rcode (op : rop) : list rk := match op with RLog r => [REnsure; RAppend r; RSeq; RInstall] end.
+Definition rcfg := @config walr regs rop out.
+Definition rrun : list nat -> rcfg -> rcfg := run rcode rexec.
+Definition rinit (progs : list (list rop)) : rcfg := init walr0 regs0 progs.
+(** what recovery reads: the files in sequence order, each oldest record first *)
+Fixpoint insert_sorted (x : Z * list Z) (l : list (Z * list Z)) : list (Z * list Z) :=
+  match l with
+  | [] => [x]
+  | y :: t => if fst x <=? fst y then x :: l else y :: insert_sorted x t
+  end.
+Definition recovered (w : walr) : list Z :=
+  flat_map (fun f => rev (snd f)) (fold_right insert_sorted [] (wr_files w)).
+
+(** * Property index (LpgStore::set_node_property with an index on the key:
+      update_property_index_on_set reads the old value and fixes the index under
+      property_indexes.read(); only afterwards node_properties.set stores the new value) *)
+Record pst := mkP { p_props : list (Z * Z); p_idx : list (Z * Z) }.   (* node -> value ; (value, node) *)
+Definition pst0 : pst := mkP [] [].
+Inductive pk := PIdx (n v : Z) | PSet (n v : Z) | PCount | PNodes.
+Definition pexec (k : pk) (p : pst) (l : regs) : pst * regs * ctl out :=
+  match k with
+  | PIdx n v =>
+      let idx1 := match aget n (p_props p) with Some old => prem (old, n) (p_idx p) | None => p_idx p end in
+      (mkP (p_props p) (padd (v, n) idx1), l, Next)
+  | PSet n v => (mkP (aset n v (p_props p)) (p_idx p), l, Next)
+  | PCount => (p, l, Next)
+  | PNodes => (p, l, Ret ONone)
+  end.
+Inductive pop := PSetProp (n v : Z).
+Definition pcode (op : pop) : list pk := match op with PSetProp n v => [PIdx n v; PSet n v; PCount; PNodes] end.
+Definition pcfg := @config pst regs pop out.
+Definition prun : list nat -> pcfg -> pcfg := run pcode pexec.
+Definition pinit (progs : list (list pop)) : pcfg := init pst0 regs0 progs.
+(** index lookup by value agrees with the stored values *)
+Definition pidx_consistent (p : pst) : bool :=
+  forallb (fun vn => match aget (snd vn) (p_props p) with Some v => v =? fst vn | None => false end) (p_idx p) &&
+  forallb (fun nv => pmem (snd nv, fst nv) (p_idx p)) (p_props p).
+
 (** * Lock footprints.  A lock is identified by its rank: the documented level of
       graph/lpg/store.rs l.137-166 times ten, plus a position inside the level; the other
       subsystems continue the numbering (their locks are never held together with the store's). *)
